@@ -93,14 +93,19 @@ impl Arch {
         }
     }
     /// two callee-saved general registers (besides the frame pointer) tracked by the C04 ground truth
-    pub fn cs(self) -> [&'static str; 2] {
-        match self {
-            Arch::X86 => ["ebx", "esi"],
-            Arch::Amd64 => ["rbx", "r12"],
-            Arch::Arm => ["r4", "r5"],
-            Arch::Arm64 | Arch::Arm64Old => ["x19", "x20"],
-            Arch::Mips32 | Arch::Mips64 => ["s0", "s1"],
-        }
+    /// (x86 keeps one pair: STACK WIN gives ebx a role of its own; elsewhere the pair rotates with `sel` through
+    /// the registers the unwinder forwards, so that every one of them is tracked by some program)
+    pub fn cs(self, sel: u64) -> [&'static str; 2] {
+        let list: &[&'static str] = match self {
+            Arch::X86 => return ["ebx", "esi"],
+            Arch::Amd64 => &["rbx", "r12", "r13", "r14", "r15"],
+            // r7 is the frame pointer on iOS
+            Arch::Arm => &["r4", "r5", "r6", "r8", "r9", "r10"],
+            Arch::Arm64 | Arch::Arm64Old => &["x19", "x20", "x21", "x22", "x23", "x24", "x25", "x26", "x27", "x28"],
+            Arch::Mips32 | Arch::Mips64 => &["s0", "s1", "s2", "s3", "s4", "s5", "s6", "s7"],
+        };
+        let n = list.len() as u64;
+        [list[(sel % n) as usize], list[((sel + 1) % n) as usize]]
     }
     /// leaf functions may keep the return address in a register (first frame may repeat sp)
     pub fn has_leaf(self) -> bool {
@@ -695,7 +700,8 @@ pub fn build(prog: &Program) -> Result<Built, Infeasible> {
     let bytes = words_to_bytes(&words, p);
     let readable = |addr: u64| read_word(stack_base, &bytes, p, addr).is_some();
     // ---- symbol text
-    let names = [a.fp(), a.cs()[0], a.cs()[1]];
+    let cs = a.cs(prog.style + 3 * prog.placement + d as u64);
+    let names = [a.fp(), cs[0], cs[1]];
     let mut sym: Vec<String> = (0..nmods).map(|k| format!("MODULE Linux x 000000000000000000000000000000000 {}\n", mod_name(k))).collect();
     for i in 0..d {
         let k = i % nmods;
